@@ -66,6 +66,43 @@ def _eval_backend(ctx, kind: str, sheet_names: list[str]):
     raise AnalysisError("C12", f"unknown backend kind {kind}")
 
 
+def spacer_column_obligations(ctx, r2, rid):
+    """A column without a header (a spacer) between used columns: cells stay under THEIR header in every backend."""
+    repo = ctx.repo
+    ger = ctx.func("pyxform.xls2json_backends:get_excel_rows", rid)
+    pc = repo.func("pyxform.xls2json_backends:csv_to_dict.process_csv_data")
+    fc = repo.func("pyxform.xls2json_backends:csv_to_dict.first_column_as_sheet_name")
+    lt = repo.func("pyxform.xls2json_backends:md_to_dict.list_to_dicts")
+
+    def cell(v):
+        return Obj(None, {"value": v}, name=f"cell:{v}")
+    it = ctx.interp(rid)
+    it.reset([])
+    rows_g = [(cell("text"), cell("junk"), cell("q1"), cell(None), cell("L1")), (cell("text"), cell(None), cell("q2"), cell("x"), cell("L2"))]
+    try:
+        out_g = it.call_function(ger, [], {"headers": ["type", None, "name", None, "label"], "rows": rows_g, "cell_func": native(lambda i, a, k, n: a[0].attrs["value"])}, None, ger.node)
+    except Raised as e:
+        out_g = f"raises {e.exc_name}"
+    r2.check(out_g == [{"type": "text", "name": "q1", "label": "L1"}, {"type": "text", "name": "q2", "label": "L2"}], "xls/xlsx:header-less spacer column", "cells are filed by column position, not by their rank among the named columns",
+             ger.loc(), why_fail=repr(out_g)[:200])
+    it.reset([])
+    try:
+        res = it.call_function(pc, [], {"rd": [["survey"], ["", "type", "", "name", "label"], ["", "text", "junk", "q1", "L1"]]}, {"first_column_as_sheet_name": FuncVal(fc)}, pc.node)
+        got_c = [{k: v for k, v in row_.items() if k != ""} for row_ in (res.get("survey") or [])]
+    except Raised as e:
+        got_c = f"raises {e.exc_name}"
+    r2.check(got_c == [{"type": "text", "name": "q1", "label": "L1"}], "csv_to_dict:header-less spacer column", "cells are filed by column position, not by their rank among the named columns",
+             pc.loc(), why_fail=repr(got_c)[:200])
+    it.reset([])
+    try:
+        dicts_g = it.call_function(lt, [[("type", None, "name", "label"), ("text", "junk", "q1", "L1")]], {}, None, None)
+        got_m = [{k: v for k, v in row_.items() if k not in (None, "None", "")} for row_ in dicts_g]
+    except Raised as e:
+        got_m = f"raises {e.exc_name}"
+    r2.check(got_m == [{"type": "text", "name": "q1", "label": "L1"}], "md_to_dict:header-less spacer column", "cells are filed by column position, not by their rank among the named columns",
+             lt.loc(), why_fail=repr(got_m)[:200])
+
+
 def run(ctx):
     repo = ctx.repo
     rules = []
@@ -141,6 +178,7 @@ def run(ctx):
     res = it.call_function(pc, [], {"rd": [["survey"], ["", " type ", "name"], ["", " text ", ""]]}, {"first_column_as_sheet_name": FuncVal(fc)}, pc.node)
     r2.check(res.get("survey") == [{"type": "text"}] and res.get("survey_header") == [{"type": None, "name": None}], "csv_to_dict:strips cells, drops empty cells", "cell text is stripped and empty cells are omitted",
              pc.loc(), why_fail=repr(res))
+    spacer_column_obligations(ctx, r2, "C12.R2")
     # md
     mt = ctx.func("pyxform.xls2json_backends:_md_table_to_ss_structure", "C12.R2")
     # only "\n" separates rows: the other characters str.splitlines() treats as line ends are legal cell content
